@@ -117,11 +117,30 @@ package fiber
 //@   ensures [C06] immutable-stable: c.app.config.Immutable ==> stable(result)
 
 // Path(): the path of the request; Path(p): p becomes the path (the caller's string is kept in c.pathOriginal).
-// (ctxWF: structural invariant of a DefaultCtx, declared in zz_contracts_c05_verif.go; configDependentPaths needs it.)
+// (ctxWF: structural invariant of a DefaultCtx, declared in zz_contracts_c05_verif.go; configDependentPaths needs it.
+// buffers-allocated: the two path buffers exist - Reset / AcquireCtx establish it, configDependentPaths keeps it; needed to
+// tell the buffer made by the override from the detection buffer.)
+// "Values obtained from the context stay correct and stable at least until the handler returns" (C06, second sentence), and
+// "the values reported by Params reproduce the request path" (C02): the strings Path() and Params() have handed out are
+// views of the context's path buffer (app.getString is utils.UnsafeString without Immutable; (*App).next cuts c.values out
+// of utils.UnsafeString(c.path)). Strings have no identity in the model, byte slices do - so the demand is stated on the
+// buffer: an override does not write a single element of the path buffer the context held at entry
+//   * frame: elems(c.path) - the OLD buffer - is not a modifies target any more (obligation frame:E_uint8; the frame is
+//     evaluated in the entry state and covers every array that existed then),
+//   * held-path-views-keep-their-content-until-the-handler-returns / params-captured-before-an-override-keep-their-values:
+//     the old slice reads the same bytes after the call, and c.values is untouched,
+//   * override-builds-the-path-in-a-buffer-of-its-own: the array of the new c.path did not exist at entry (or is nil).
+// Replaced in round E: the former frame listed elems(c.path), i.e. it described the in-place rewrite of the old code.
+// elems(c.detectionPath) stays a target: the detection path is still rebuilt in place, and no value a handler can obtain is
+// a view of it (getDetectionPath is unexported; Route.match / getMatch cut the values out of `path`, never `detectionPath`).
 //@ func (*DefaultCtx).Path
 //@   props C06 C07
 //@   requires ctx-wf: len(override) != 0 ==> ctxWF(c)
-//@   modifies c.pathOriginal, c.path, c.detectionPath, c.treePathHash, elems(c.path), elems(c.detectionPath), c.indexRoute
+//@   requires buffers-allocated: len(override) != 0 ==> buffersAllocated(c)
+//@   modifies c.pathOriginal, c.path, c.detectionPath, c.treePathHash, elems(c.detectionPath), c.indexRoute
+//@   ensures [C06] held-path-views-keep-their-content-until-the-handler-returns: str(old(c.path)) == old(str(c.path))
+//@   ensures [C06] override-builds-the-path-in-a-buffer-of-its-own: len(override) != 0 && old(str(c.path)) != override[0] ==> forallI(a, a == arr(c.path) ==> a == 0 || !old(allocated(a)))
+//@   ensures [C02] params-captured-before-an-override-keep-their-values: str(old(c.path)) == old(str(c.path)) && forall(k, 0, maxParams, c.values[k] == old(c.values[k]))
 //@   ensures [C01] no-override-only-reads: len(override) == 0 ==> result == str(c.path) && c.indexRoute == old(c.indexRoute) && c.pathOriginal == old(c.pathOriginal) && c.path == old(c.path) && c.detectionPath == old(c.detectionPath) &&
 //@ ..    c.treePathHash == old(c.treePathHash) && str(c.path) == old(str(c.path)) && str(c.detectionPath) == old(str(c.detectionPath))
 //@   ensures [C06] immutable-stable: old(wfImmutable(c)) && old(c.app.config.Immutable) ==> stable(result)
@@ -346,6 +365,10 @@ package fiber
 //@   trusted ensures [C06] immutable-stable: typeis(c, *DefaultCtx) && as(c, *DefaultCtx).app.config.Immutable && copies(as(c, *DefaultCtx).app.getString) ==> stable(result) || (len(defaultValue) > 0 && result == defaultValue[0])
 // genericParseType[V] / assertValueType[V, T]: type switch and type assertion over the type parameter - outside the
 // generator's subset. Assumed: no effect on the heap (the bodies only call strconv and closures over assertValueType).
+// (Round E: a checked contract was tried - `pure` + `!called(@utils.UnsafeBytes) && !called(@utils.UnsafeString)` - and is NOT
+// sound in this engine: any(v) of a value whose type parameter has a union constraint is boxed with a fixed tag of its own, so every
+// `case T:` branch of the type switch is unreachable in the VC and only the default branch is examined; the clause was
+// "proved" with `utils.UnsafeBytes(str)` planted in the []byte case. Hence still assumed.)
 //@ func genericParseType assumed pure
 
 // Query(key): Query[string] (assumed contract of the generic function in /verif/contracts/deps/mw_C15.spec).
